@@ -329,11 +329,14 @@ class DocutilsRenderer(RendererProtocol):
                 current_level_to_section = dict(self._level_to_section.items())
                 current_root_node = self.md_env.get("temp_root_node", None)
                 self.md_env["temp_root_node"] = temp_root_node
-            yield
-            self._heading_offset = current_heading_offset
-            if temp_root_node is not None:
-                self.md_env["temp_root_node"] = current_root_node
-                self._level_to_section = current_level_to_section
+            try:
+                yield
+            finally:
+                # (also when a directive or role of the nested text raised)
+                self._heading_offset = current_heading_offset
+                if temp_root_node is not None:
+                    self.md_env["temp_root_node"] = current_root_node
+                    self._level_to_section = current_level_to_section
 
         with _restore():
             self._render_tokens(tokens)
@@ -347,8 +350,10 @@ class DocutilsRenderer(RendererProtocol):
             self.current_node.append(node)
         current_node = self.current_node
         self.current_node = node
-        yield
-        self.current_node = current_node
+        try:
+            yield
+        finally:
+            self.current_node = current_node
 
     def render_children(self, token: SyntaxTreeNode) -> None:
         """Render the children of a token."""
